@@ -90,13 +90,25 @@ func (t *Transaction) Transact(operations ...ovsdb.Operation) ([]*ovsdb.Operatio
 		case ovsdb.OperationWait:
 			r = t.Wait(op.Table, op.Timeout, op.Where, op.Columns, op.Until, op.Rows)
 		case ovsdb.OperationCommit:
+			if op.Durable == nil {
+				r = ovsdb.ResultFromError(fmt.Errorf("commit requires a durable member"))
+				break
+			}
 			durable := op.Durable
 			r = t.Commit(*durable)
 		case ovsdb.OperationAbort:
 			r = t.Abort()
 		case ovsdb.OperationComment:
+			if op.Comment == nil {
+				r = ovsdb.ResultFromError(fmt.Errorf("comment requires a comment member"))
+				break
+			}
 			r = t.Comment(*op.Comment)
 		case ovsdb.OperationAssert:
+			if op.Lock == nil {
+				r = ovsdb.ResultFromError(fmt.Errorf("assert requires a lock member"))
+				break
+			}
 			r = t.Assert(*op.Lock)
 		default:
 			r = ovsdb.ResultFromError(&ovsdb.NotSupported{})
